@@ -4,14 +4,15 @@ from . import agentsim as S
 PROP  = 'C04'
 KNOBS = {'max_tasks': 12, 'cancel_prob': 0.5, 'named_env_share': 0.1,
          'bad_ranks_share': 0.05, 'tag_share': 0.1, 'fail_share': 0.0,
-         'preempt': 0.01}
+         'preempt': 0.01, 'partition_share': 0.08}
 
 
 def _nontrivial(sc, res):
     return len(sc['tasks']) >= 3
 
 
-gen, run = S.make_check(PROP, ['sched'], KNOBS, _nontrivial)
+gen, run = S.make_check(PROP, ['sched', 'sched', 'sched', 'sched', 'jsrun'],
+                        KNOBS, _nontrivial)
 shrink = S.shrink
 SEEDS  = {'quick': 1500, 'thorough': 60000}
 BUDGET = {'quick': 240, 'thorough': 3000}
